@@ -497,6 +497,15 @@ type ContractSet struct {
 	LockInvs  []*LockInv
 	Axioms    []*Axiom
 	Sums      []*GhostSum
+	ClosedTypes []*ClosedType
+}
+
+// ClosedType: see the closed_type clause.
+type ClosedType struct {
+	PkgPath string
+	Type    string
+	Fields  []string
+	Text    string
 }
 
 func newContractSet() *ContractSet {
@@ -507,7 +516,7 @@ var clauseKeywords = map[string]bool{
 	"func": true, "on_lock": true, "extern": true, "requires": true, "requires_locked": true, "ensures": true, "modifies": true, "nopanic": true,
 	"loop": true, "specfunc": true, "ghost": true, "ghostsum": true, "ghost_set": true, "lockinv": true, "axiom": true, "trusted": true,
 	"pure": true, "inline": true, "held": true, "acquires": true, "assert": true, "package": true, "invariant": true, "lemma": true, "lemma_at": true, "unknown_calls_modify": true,
-	"assume_after": true, "callback": true,
+	"assume_after": true, "callback": true, "closed_type": true,
 }
 
 // splitLabel splits "label: expr" (label is a bare identifier followed by ':' but not '::').
@@ -798,6 +807,16 @@ func (cs *ContractSet) parseContractText(file, pkgPath string, lines []string, l
 			}
 			cs.SpecFuncs[pkgPath+"\x00"+sf.Name] = sf
 			cs.SpecFuncByName[sf.Name] = append(cs.SpecFuncByName[sf.Name], sf)
+		case "closed_type":
+			// closed_type T fields f, g: contracts rely on a coupling between these fields of T that
+			// every method touching them must keep; a method of T (or *T) that touches one of them
+			// and has no contract is reported as a failed obligation (checked whenever a method of T
+			// under contract is verified)
+			fs := strings.Fields(strings.ReplaceAll(rest, ",", " "))
+			if len(fs) < 3 || fs[1] != "fields" {
+				return fmt.Errorf("%s:%d: closed_type T fields f, g", file, it.line)
+			}
+			cs.ClosedTypes = append(cs.ClosedTypes, &ClosedType{PkgPath: pkgPath, Type: fs[0], Fields: fs[2:], Text: rest})
 		case "ghost":
 			// ghost field T.name type
 			fs := strings.Fields(rest)
